@@ -208,6 +208,8 @@ class Fn:
             if ka == kb == "B":
                 return f"({a}, {b})", "BB"
             raise Unsupported("tuple " + ast.unparse(e))
+        if isinstance(e, ast.IfExp) and self.static_isinstance(e.test) is not None:
+            return self.expr(e.body if self.static_isinstance(e.test) else e.orelse, out, ind)
         if isinstance(e, ast.Call):
             return self.call(e, out, ind)
         raise Unsupported("expression " + ast.unparse(e))
@@ -620,8 +622,10 @@ class Fn:
             raise Unsupported("statement " + type(st).__name__ + ": " + ast.unparse(st)[:80])
         return False
 
-    KIND_CLASSES = {"B": {"bytes", "bytearray"}, "S": {"str"}, "SB": {"str", "bytes"}, "N": {"int"}, "I": {"int"}}
-    KNOWN_CLASSES = {"bytes", "bytearray", "memoryview", "str", "int", "float", "complex", "list", "tuple", "dict", "set", "frozenset"}
+    KIND_CLASSES = {"B": {"bytes", "bytearray"}, "S": {"str"}, "SB": {"str", "bytes"}, "N": {"int"}, "I": {"int"},
+                    "OB": {"bytes", "bytearray", "NoneType"}, "OSB": {"str", "bytes", "NoneType"}, "ON": {"int", "NoneType"}}
+    KNOWN_CLASSES = {"bytes", "bytearray", "memoryview", "str", "int", "float", "complex", "list", "tuple", "dict", "set", "frozenset",
+                     "_array.array", "array.array"}
 
     def static_isinstance(self, t):
         """`isinstance(x, T)` / `not isinstance(x, T)` decided by the kind of `x` (the values the theorem quantifies over):
